@@ -56,7 +56,7 @@ def typed_arg(rng, env, pname, depth):
     if 'criteria' in p:
         if star and rng.random() < 0.5:
             return rng.choice(ARRAYS)
-        return rng.choice(CRITERIA)
+        return rng.choice(CRITERIA) if rng.random() < 0.9 else rng.choice(LONG_STRINGS)
     if p in ('args', 'arr', 'lookup_array', 'sum_args', 'average_range', 'yx'):
         r = rng.random()
         if r < 0.6:
@@ -67,9 +67,9 @@ def typed_arg(rng, env, pname, depth):
     if p == 'unit':
         return rng.choice(UNITS)
     if p == 'format_text':
-        return rng.choice(FORMATS)
+        return rng.choice(FORMATS) if rng.random() < 0.75 else rng.choice(LONG_STRINGS)
     if 'text' in p or p in ('char', 'delimiter', 'hex'):
-        return rng.choice(STRINGS)
+        return text_literal(rng)
     if 'date' in p or p in ('serial_number', 'time'):
         return rng.choice(DATES)
     if p in ('number', 'value', 'significance', 'num_chars', 'base', 'digits', 'places', 'month', 'year', 'day', 'n', 'power',
@@ -188,6 +188,18 @@ STRINGS = ['""', '"abc"', '"12"', '"-3.5"', '"2020-02-29"', '"a*"', '"é漢"', '
            '"0x1F"', '"31/12/2020"', '"1900-01-01"', '"?b*"', '">1"', '"<>"', '"="']
 
 
+LONG_STRINGS = ['"Outstanding balance on your account as of today: 0.00"', '"' + 'x' * 45 + '#"', '"' + 'ab ' * 15 + '0"',
+                '"' + 'a' * 50 + '"', '"' + '.' * 40 + '1"', '"' + 'a,' * 25 + '"', '"' + '0' * 40 + 'a"', '"' + ' ' * 40 + 'x"',
+                '"' + 'a*' * 20 + '?"', '"' + '<>' * 20 + '1"', '"' + 'yyyy-' * 10 + 'mm"', '"' + '9' * 30 + '"',
+                '"' + 'é' * 40 + '0.0"', '"' + 'Z' * 35 + '1:' + 'A' * 5 + '"']
+
+
+def text_literal(rng):
+    """A string literal; one in ten is long (runs of 30-50 characters before a different character class: what
+    backtracking regular expressions inside function bodies choke on)."""
+    return rng.choice(LONG_STRINGS) if rng.random() < 0.1 else rng.choice(STRINGS)
+
+
 def cell_label(rng):
     col = rng.choice(['A', 'B', 'C', 'Z', 'AA', 'AZ', 'XFD', 'a', 'bc', 'ZZZZ'])
     row = rng.choice([1, 2, 3, 5, 9, 10, 99, 1048576, 1048577])
@@ -296,7 +308,7 @@ def gen_expr(rng, env, depth):
     if k <= 2:
         return number_literal(rng)
     if k == 3:
-        return rng.choice(STRINGS)
+        return text_literal(rng)
     if k == 4:
         if rng.random() < 0.7 and env.variables:
             return rng.choice(env.variables)
